@@ -12,6 +12,7 @@ import warnings
 import numpy as np
 
 from models.weaver_model import WeaverModel, Series, truncate_indices, ambiguous_bounds, DOMAIN_OPS, RESHAPING_OPS
+from simkit import isolate
 from simkit import runner as R
 from simkit import stream as S
 
@@ -1030,6 +1031,7 @@ class Machine:
         self.count("invalid:" + c)
         twin = copy.deepcopy(self.wv)
         before = snapshot(self.wv)
+        err_state = np.geterr()
         raised = None
         try:
             with warnings.catch_warnings():
@@ -1041,6 +1043,10 @@ class Machine:
             self.fail("V1/not-ValueError", key, f"{d['text']} raised {type(e).__name__}: {e}, expected ValueError")
         if raised is None:
             self.fail("V1/accepted", key, f"{d['text']} was accepted instead of raising ValueError")
+        if np.geterr() != err_state:
+            # outside the statement (the three series are what must be untouched): reported in the evidence only
+            self.count("probe:rejected-request-changed-numpy-error-state")
+            np.seterr(**err_state)
         after = snapshot(self.wv)
         if not same_snapshot(before, after):
             names = ("working", "reference", "original")
@@ -1055,6 +1061,7 @@ class Machine:
 # ----------------------------------------------------------------------------- running one history
 def run_history(mode, params, st, keep_log=False):
     res = R.Result()
+    isolate.reset_library_state()
     M = Machine(st, mode, keep_log)
     M.last_invalid = "class=?"
     M.rng.install()
